@@ -33,7 +33,7 @@ def main():
     subprocess.run(["git", "-C", "/repo", "worktree", "add", "--detach", "-q", wt, "HEAD"], check=True)
     meta = {"id": sid, "property": prop, "needs": open(notes).read().strip()[:1500], "repo_head": subprocess.run(["git", "-C", "/repo", "rev-parse", "--short", "HEAD"], capture_output=True, text=True).stdout.strip(), "ran": []}
     try:
-        env = dict(os.environ, PYTHONPATH=wt, OMP_NUM_THREADS="1", PYTHONWARNINGS="ignore")
+        env = dict(os.environ, PYTHONPATH=wt, OMP_NUM_THREADS="2", PYTHONWARNINGS="ignore")
         env.pop("LANL_PYSEQM_VERIF", None)
         rc0, out0 = sh(["/venv/bin/python", os.path.join(dest, "demo.py")], cwd=wt, env=env)
         meta["demo_clean_rc"] = rc0
